@@ -20,6 +20,12 @@ from pyvc.values import Child, ChildList, Ref, Sym, wrap, z
 from .pstate import (
     FIELDS,
     G_inst,
+    W1,
+    W2,
+    W3,
+    W4,
+    W5,
+    wf,
     INP,
     LS,
     G,
@@ -172,6 +178,16 @@ class OpSpec(StateModel, FunctionSpec):
         run.oblige("frame.snaps", self.snaps_same(run), w)
         for i, g in enumerate(G(L0, okc, Lc, prs)[:-1]):
             run.oblige(f"G.{i}", g, w)
+        # C06: the delivered pairs are well-formed inside [pos0, pos1]
+        p0, p1 = lget(L0, "pos"), lget(L1, "pos")
+        run.assume(W1(p0, p1))
+        for h in self.wf_hints(run, L0, ok, L1, prs):
+            run.assume(h)
+        run.oblige("G.wf", z3.Implies(ok, wf(prs, p0, p1)), w)
+
+    def wf_hints(self, run: Run, L0, ok, L1, prs) -> list[z3.BoolRef]:  # noqa: N803
+        """instances of the wf lemmas W1-W5 this operator's argument needs"""
+        return []
 
 
 # ============================================================================ postfix
@@ -223,8 +239,18 @@ def rep_loop(spec: "OpSpec") -> Loop:
         if run.loop_phase == "head":
             run.ghost["head_children"] = spec.lseq(run, "children")
         Lt = TV[1](0, La)  # noqa: N806
-        Lin = z3.If(z(g["first"]), run.ghost["rep_Ls"], Lt)  # noqa: N806
-        return [*more_unfold(La), G_inst(TV, 0, La), G_inst(C, 0, Lin)]
+        Ls = run.ghost["rep_Ls"]  # noqa: N806
+        Lin = z3.If(z(g["first"]), Ls, Lt)  # noqa: N806
+        acc, Pt, P2, L2 = z(g["acc"]), TV[2](0, La), C[2](0, Lin), C[1](0, Lin)  # noqa: N806
+        ps, pa, pt, p2 = lget(Ls, "pos"), lget(La, "pos"), lget(Lt, "pos"), lget(L2, "pos")
+        hints = [
+            W1(ps, ps), W1(pa, pa),
+            W2(Pt, P2, pa, pt, p2),
+            W2(acc, z3.Concat(Pt, P2), ps, pa, p2),
+            W2(acc, P2, ps, pa, p2),
+            W2(EMPTY_P, P2, ps, ps, p2),
+        ]
+        return [*more_unfold(La), G_inst(TV, 0, La), G_inst(C, 0, Lin), *hints]
 
     def inv(run, g):
         Ls, Pp = run.ghost["rep_Ls"], run.ghost["rep_Pp"]  # noqa: N806
@@ -243,6 +269,7 @@ def rep_loop(spec: "OpSpec") -> Loop:
             ("rep", z3.Implies(z3.Not(first), z3.And(st0 == more_st(La), prs0 == z3.Concat(acc, more_prs(La))))),
             ("tried", z3.And(matched == ok, Lc == L2, ch == z3.Concat(z3.If(first, EMPTY_P, Pt), z3.If(ok, P2, EMPTY_P)))),
             ("wf", z3.And(*wf_state(La), *G(Ls, z3.BoolVal(True), La, EMPTY_P)[:6])),
+            ("wf.acc", wf(acc, lget(Ls, "pos"), lget(La, "pos"))),
         ]
 
     def back(run, g):
@@ -281,6 +308,13 @@ class RepeatOnceSpec(OpSpec):
         st, prs = rep(Lt)
         return ok, z3.If(ok, st, restored(L0, L1)), z3.Concat(P1, Pt, prs)
 
+    def wf_hints(self, run, L0, ok, L1, prs):  # noqa: N803
+        _, La, P1 = ocall(C, 0, L0)  # noqa: N806
+        _, Lt, Pt = ocall(TV, 0, La)  # noqa: N806
+        _, rprs = rep(Lt)
+        p0, pa, pt, pf = lget(L0, "pos"), lget(La, "pos"), lget(Lt, "pos"), lget(L1, "pos")
+        return [W2(P1, Pt, p0, pa, pt), W2(z3.Concat(P1, Pt), rprs, p0, pt, pf), W1(pt, pt)]
+
     def mk_loops(self):
         return {0: rep_loop(self)}
 
@@ -289,6 +323,8 @@ class RepeatOnceSpec(OpSpec):
 def self_label(run: Run) -> z3.ExprRef:
     """str(self) of the expression under verification: an opaque label (same constant the
     executor produces for str(<object without a __str__ contract>))."""
+    if "label" in run.pre:
+        return z3.StringVal(run.pre["label"])  # templates: str(node) evaluated by the generator
     return z3.Const(f"str!obj{run.pre['me'].oid}", z3.StringSort())
 
 
@@ -375,6 +411,7 @@ class CIStringSpec(TerminalSpec):
     def K(self, run, L0):  # noqa: N802, N803
         v = z(run.obj(run.pre["me"])["value"])
         ok = ci_match(v, INP, lget(L0, "pos"))
+        run.assume(z3.Implies(ok, lget(L0, "pos") + z3.Length(v) <= z3.Length(INP)), "regex: a match of re.escape(v)/re.I at p spans [p, p+len(v)] inside the input")
         return ok, z3.If(ok, advance(L0, z3.Length(v)), fail_effect(L0, self_label(run))), EMPTY_P
 
 
@@ -509,7 +546,8 @@ class NegPredSpec(OpSpec):
         Lin = lset(L0, neg=lget(L0, "neg") + 1)  # noqa: N806
         ok, L1, _ = ocall(C, 0, Lin)  # noqa: N806
         Lr = restored(L0, L1)  # noqa: N806
-        lab = child_label("c", 0)
+        # interpreter: str(self.expression) at run time; template: the same string computed by the generator
+        lab = z3.StringVal("<child0>") if self.template_mode else child_label("c", 0)
         Lf = fail_effect(Lr, lab, None, force=True)  # noqa: N806
         L2 = z3.If(ok, Lf, Lr)  # noqa: N806
         return z3.Not(ok), lset(L2, neg=lget(L2, "neg") - 1), EMPTY_P
@@ -637,7 +675,12 @@ class SequenceSpec(NarySpec):
 
         def facts(run, g):
             i = z(run.loop_idx)
-            return sq_unfold(i, spec.cur(run))
+            Lc = spec.cur(run)  # noqa: N806
+            ch = spec.lseq(run, "children")
+            _, L1, P = ocall(C, i, Lc)  # noqa: N806
+            _, Lt, Pt = ocall(TV, 0, L1)  # noqa: N806
+            p0, pc, p1, pt = lget(run.pre["L0"], "pos"), lget(Lc, "pos"), lget(L1, "pos"), lget(Lt, "pos")
+            return [*sq_unfold(i, Lc), W2(ch, P, p0, pc, p1), W2(z3.Concat(ch, P), Pt, p0, p1, pt), W1(p0, p0)]
 
         def inv(run, g):
             L0, P0 = run.pre["L0"], run.pre["P0"]  # noqa: N806
@@ -645,6 +688,7 @@ class SequenceSpec(NarySpec):
             Lc = spec.cur(run)  # noqa: N806
             ch = spec.lseq(run, "children")
             return [
+                ("wf.ch", wf(ch, lget(L0, "pos"), lget(Lc, "pos"))),
                 ("snaps", spec.snaps_same(run)),
                 ("pairs", spec.pairs_now(run) == P0),
                 (
@@ -807,6 +851,32 @@ class RuleSpec(RulesMixin, OpSpec):
         kids = vis(P) if m & ATOMIC else P
         pair = mkpair(r_name(rid), lget(L0, "pos"), lget(L1, "pos"), kids, tag)
         return ok, z3.If(ok, Lt, Lo), z3.Unit(pair)
+
+
+def _rule_wf_hints(self, run, L0, ok, L1, prs):  # noqa: N803
+    me = run.obj(run.pre["me"])
+    rid = me["$term"]
+    m = self.modifier
+    Lp = lset(L0, rstk=z3.Concat(lget(L0, "rstk"), z3.Unit(rid)))  # noqa: N806
+    if m & (ATOMIC | COMPOUND) or self.trivia_name:
+        Lin = lset(Lp, atom=lget(L0, "atom") + 1)  # noqa: N806
+    elif m & NONATOMIC:
+        Lin = lset(Lp, atom=z3.IntVal(0))  # noqa: N806
+    else:
+        Lin = Lp  # noqa: N806
+    _, Lb, P = ocall(C, 0, Lin)  # noqa: N806
+    p0, p1 = lget(L0, "pos"), lget(Lb, "pos")
+    tg = lget(Lb, "tags")
+    tag = z3.If(z3.Length(tg) > 0, OptStr.some_s(tg[z3.Length(tg) - 1]), OptStr.none_s)
+    kids = vis(P) if m & ATOMIC else P
+    return [
+        W4(r_name(rid), p0, p1, kids, tag, p0, p1),
+        # vis() selects a sub-forest (the pairs produced under nested $/! rules): it preserves well-formedness
+        z3.Implies(wf(P, p0, p1), wf(vis(P), p0, p1)),
+    ]
+
+
+RuleSpec.wf_hints = _rule_wf_hints
 
 
 def rule_specs():
@@ -1185,6 +1255,11 @@ class ParseTriviaSpec(RulesMixin, OpSpec):
         run.oblige("frame.snaps", self.snaps_same(run))
         for i, g in enumerate(G(L0, z3.BoolVal(True), Lc, prs)[:-1]):
             run.oblige(f"G.{i}", g)
+        run.assume(W1(lget(L0, "pos"), lget(L0, "pos")))
+        d = self.defined
+        if d["SKIP"]:
+            run.assume(G_inst(R, SKIP, L0))
+        run.oblige("G.wf", wf(prs, lget(L0, "pos"), lget(L1, "pos")))
 
     def mk_loops(self):
         spec = self
@@ -1196,6 +1271,13 @@ class ParseTriviaSpec(RulesMixin, OpSpec):
         def facts(run, g):
             Lc = spec.cur(run)  # noqa: N806
             out = tvl_unfold(Lc, d["WHITESPACE"], d["COMMENT"])
+            acc = z(g["acc"])
+            ps, pc = lget(start(run), "pos"), lget(Lc, "pos")
+            for nm, on in ((WS, d["WHITESPACE"]), (CM, d["COMMENT"])):
+                if on:
+                    for Lx in (Lc, restored(Lc, R[1](WS, Lc))):  # noqa: N806
+                        out.append(W2(acc, R[2](nm, Lx), ps, pc, lget(R[1](nm, Lx), "pos")))
+            out.append(W1(ps, ps))
             if d["WHITESPACE"]:
                 out.append(G_inst(R, WS, Lc))
                 if d["COMMENT"]:
@@ -1213,6 +1295,7 @@ class ParseTriviaSpec(RulesMixin, OpSpec):
                 ("pairs", spec.pairs_now(run) == z3.Concat(P0, acc)),
                 ("children", z3.Length(spec.lseq(run, "children")) == 0),
                 ("rest", z3.And(tvl_st(Lc) == tvl_st(L1), z3.Concat(acc, tvl_prs(Lc)) == tvl_prs(L1))),
+                ("wf.acc", wf(acc, lget(L1, "pos"), lget(Lc, "pos"))),
                 ("wf", z3.And(*wf_state(Lc, True), *G(L1, z3.BoolVal(True), Lc, EMPTY_P)[:6])),
             ]
 
